@@ -497,7 +497,11 @@ func (e C12) execEnarmor(p *C12Plan, c *core.Ctx) *core.Verdict {
 		if off+sg > len(data) {
 			sg = len(data) - off
 		}
-		n, err := w.Write(data[off : off+sg])
+		scratch := append(make([]byte, 0, sg+7), data[off:off+sg]...)
+		n, err := w.Write(scratch)
+		for i := range scratch[:cap(scratch)] {
+			scratch[:cap(scratch)][i] = 0xAA // the caller's buffer is reused at once
+		}
 		if n != sg || err != nil {
 			return core.Fail("C12.enc.count", "Write of %d bytes (segment %d of %v) to the armor writer reported (%d, %v)", sg, i, p.Segs, n, err)
 		}
